@@ -21,6 +21,7 @@ struct Key
 	gcry_sexp_t sexp; tmcg_openpgp_pkalgo_t algo; tmcg_openpgp_octets_t pub, pub_hashing, keyid; const char *name;
 };
 static std::vector<Key> g_keys;
+static gcry_sexp_t g_elg = NULL, g_ecdh = NULL; // encryption keys (ElGamal-2048, ECDH NIST P-256)
 static const time_t TK = 1500000000 - 86400 * 30; // creation time of all keys
 
 static void load_key(const char *txt, tmcg_openpgp_pkalgo_t algo, const char *name)
@@ -76,6 +77,8 @@ static void pgp_init(const Tier &)
 	load_key(PGP_KEY_DSA1, TMCG_OPENPGP_PKALGO_DSA, "dsa2048");
 	load_key(PGP_KEY_RSA2, TMCG_OPENPGP_PKALGO_RSA, "rsa2048-other");
 	load_key(PGP_KEY_ED1, TMCG_OPENPGP_PKALGO_EDDSA, "ed25519");
+	size_t eo = 0;
+	if (gcry_sexp_sscan(&g_elg, &eo, PGP_KEY_ELG1, strlen(PGP_KEY_ELG1)) || gcry_sexp_sscan(&g_ecdh, &eo, PGP_KEY_ECDH1, strlen(PGP_KEY_ECDH1))) { fprintf(stderr, "pgp: cannot parse encryption keys\n"); exit(2); }
 }
 
 // re-encode one packet with a new body (new-format header, same tag)
@@ -315,7 +318,7 @@ static void aead_case(World &W)
 	tmcg_openpgp_byte_t cs = (tmcg_openpgp_byte_t)(p.get("chunk", 0) % 3); // chunk size 2^(cs+6): 64, 128, 256 octets
 	size_t chunk = (size_t)1 << (cs + 6);
 	static const long lens[] = { 0, 1, -1, 0, 1, 5 }; // relative to k*chunk
-	size_t k = (size_t)p.get("nchunks", 1) % 4;
+	size_t k = (size_t)std::min<int64_t>(400, std::max<int64_t>(0, p.get("nchunks", 1))); // rarely above 255: the chunk index then needs a second octet of the nonce
 	long L = (long)(k * chunk) + lens[(size_t)p.get("doc", 0) % 6]; if (L < 0) L = 0;
 	tmcg_openpgp_octets_t in((size_t)L), ad, iv, enc, out;
 	for (size_t i = 0; i < in.size(); i++) in[i] = (tmcg_openpgp_byte_t)W.S.gen.next();
@@ -375,7 +378,7 @@ static void join_packets(const std::vector<Pkt> &in, tmcg_openpgp_octets_t &out)
 	for (size_t i = 0; i < in.size(); i++) { tmcg_openpgp_octets_t t; repacket(in[i].tag, in[i].body, t); out.insert(out.end(), t.begin(), t.end()); }
 }
 
-static void build_keyblock(const Key &K, time_t Ts, tmcg_openpgp_octets_t &all, std::string &uidstr)
+static void build_keyblock(const Key &K, time_t Ts, tmcg_openpgp_octets_t &all, std::string &uidstr, bool with_subkey = false)
 {
 	uidstr = "Test <test@example.org>";
 	tmcg_openpgp_octets_t uid, trailer, hash, left, sigpkt, flags, empty;
@@ -385,6 +388,22 @@ static void build_keyblock(const Key &K, time_t Ts, tmcg_openpgp_octets_t &all, 
 	PGP::CertificationHash(K.pub_hashing, uidstr, empty, trailer, TMCG_OPENPGP_HASHALGO_SHA256, hash, left);
 	(void)sign_any(K, hash, TMCG_OPENPGP_HASHALGO_SHA256, trailer, left, sigpkt);
 	all = K.pub; all.insert(all.end(), uid.begin(), uid.end()); all.insert(all.end(), sigpkt.begin(), sigpkt.end());
+	if (with_subkey)
+	{
+		// an ElGamal encryption subkey with its binding signature by the primary key
+		gcry_mpi_t ep = NULL, eg = NULL, ey = NULL;
+		if (!gcry_sexp_extract_param(g_elg, NULL, "pgy", &ep, &eg, &ey, NULL))
+		{
+			tmcg_openpgp_octets_t sub, sub_hashing, tr2, h2, l2, subsig, sflags;
+			PGP::PacketSubEncode(TK, TMCG_OPENPGP_PKALGO_ELGAMAL, ep, eg, eg, ey, sub);
+			PGP::PacketBodyExtract(sub, 0, sub_hashing);
+			sflags.push_back(0x04 | 0x08);
+			PGP::PacketSigPrepareSelfSignature(TMCG_OPENPGP_SIGNATURE_SUBKEY_BINDING, K.algo, TMCG_OPENPGP_HASHALGO_SHA256, Ts, 0, sflags, K.keyid, false, tr2);
+			PGP::KeyHash(K.pub_hashing, sub_hashing, tr2, TMCG_OPENPGP_HASHALGO_SHA256, h2, l2);
+			if (!sign_any(K, h2, TMCG_OPENPGP_HASHALGO_SHA256, tr2, l2, subsig)) { all.insert(all.end(), sub.begin(), sub.end()); all.insert(all.end(), subsig.begin(), subsig.end()); }
+			gcry_mpi_release(ep); gcry_mpi_release(eg); gcry_mpi_release(ey);
+		}
+	}
 }
 
 static void artefact_case(World &W)
@@ -399,7 +418,8 @@ static void artefact_case(World &W)
 	tmcg_openpgp_octets_t all, doc; std::string uidstr;
 	tmcg_openpgp_secure_octets_t seskey;
 	make_doc(W, 2, doc);
-	if (art == 0) build_keyblock(K, Ts, all, uidstr);
+	bool with_sub = (art == 0) && p.get("subkey", 0) != 0;
+	if (art == 0) build_keyblock(K, Ts, all, uidstr, with_sub);
 	else if (art == 1)
 	{
 		tmcg_openpgp_octets_t trailer, hash, left;
@@ -434,6 +454,23 @@ static void artefact_case(World &W)
 		case 4: pk.insert(pk.begin() + pi, pk[pi]); damaged = true; what = "packet " + std::to_string(pi) + " duplicated"; W.res.cnt["fault.art_duppacket"]++; break;
 		case 5: if (pk.size() > 1) { std::swap(pk[pi], pk[(pi + 1) % pk.size()]); damaged = true; what = "packets exchanged"; W.res.cnt["fault.art_reorder"]++; } break;
 		case 6: { size_t add = 1 + (size_t)fb % 300; for (size_t i = 0; i < add; i++) pk[pi].body.push_back((tmcg_openpgp_byte_t)(fc + i)); damaged = true; what = "body of packet " + std::to_string(pi) + " extended by " + std::to_string(add); W.res.cnt["fault.art_extend_reencoded"]++; break; }
+	}
+	// further seeded edits of the packet sequence (any packet copied to any place, dropped, exchanged with any
+	// other, a key packet given an unknown algorithm or version): packet orders no single edit produces
+	size_t nedits = (size_t)(p.get("edits", 0) % 5);
+	if (nedits)
+	{
+		Rng er(derive((uint64_t)fa * 1000003ULL + (uint64_t)fb * 31 + (uint64_t)fc, 77));
+		for (size_t e = 0; e < nedits && !pk.empty(); e++)
+		{
+			size_t a = (size_t)er.below(pk.size()), b = (size_t)er.below(pk.size() + 1); unsigned kind = (unsigned)er.below(5);
+			if (kind == 0 && pk.size() < 12) pk.insert(pk.begin() + b, pk[a]);
+			else if (kind == 1 && pk.size() > 1) pk.erase(pk.begin() + a);
+			else if (kind == 2) std::swap(pk[a], pk[b % pk.size()]);
+			else if (kind == 3) { for (size_t q = 0; q < pk.size(); q++) { size_t z = (a + q) % pk.size(); if ((pk[z].tag == 6 || pk[z].tag == 14) && pk[z].body.size() > 5) { pk[z].body[5] = (tmcg_openpgp_byte_t)(er.below(2) ? 99 : er.below(256)); break; } } }
+			else { for (size_t q = 0; q < pk.size(); q++) { size_t z = (a + q) % pk.size(); if (!pk[z].body.empty()) { pk[z].body[0] = (tmcg_openpgp_byte_t)er.below(7); break; } } }
+		}
+		damaged = true; dmg = 8; what = std::to_string(nedits) + " seeded edits of the packet sequence"; W.res.cnt["fault.art_sequence_edits"]++;
 	}
 	tmcg_openpgp_octets_t wire; join_packets(pk, wire);
 	if (!damaged && wire != all) { W.violate("C20", "reencoding_differs", "re-encoding the packets of an emitted artefact changes it"); return; }
@@ -523,7 +560,7 @@ static void artefact_case(World &W)
 		if (msg) delete msg;
 		outcome = (ok ? 1 : 0) | (d ? 2 : 0);
 		if (!trailing_only && !damaged && !d) W.violate("C20", "own_message_not_decrypted", "message made by the library does not decrypt");
-		if (!trailing_only && damaged && d && dmg != 4 && dmg != 3) W.violate("C20", "tampered_message_decrypts", "decryption succeeded although " + what);
+		if (!trailing_only && damaged && d && dmg != 4 && dmg != 3 && dmg != 8) W.violate("C20", "tampered_message_decrypts", "decryption succeeded although " + what);
 	}
 	W.S.hist.add(H_RESULT, (uint64_t)outcome, (uint64_t)dmg, (uint64_t)art);
 }
@@ -723,19 +760,12 @@ static void gnupg_case(World &W)
 }
 
 // ---- session keys encrypted to a public key (PKESK): RSA, ElGamal, ECDH
-static gcry_sexp_t g_elg = NULL, g_ecdh = NULL;
-
 static void pkenc_case(World &W)
 {
 	const Plan &p = W.plan;
 	int alg = (int)(p.get("key", 0) % 3);          // 0 RSA, 1 ElGamal, 2 ECDH (NIST P-256)
 	int fault = (int)(p.get("fault", 0) % 5);      // 0 none, 1 bit flipped in the encrypted session key, 2 other recipient key (RSA), 3 body truncated, 4 ECDH: other fingerprint / KDF parameters
 	int64_t fa = p.get("fa", 0), fb = p.get("fb", 0);
-	if (!g_elg)
-	{
-		size_t eo = 0;
-		if (gcry_sexp_sscan(&g_elg, &eo, PGP_KEY_ELG1, strlen(PGP_KEY_ELG1)) || gcry_sexp_sscan(&g_ecdh, &eo, PGP_KEY_ECDH1, strlen(PGP_KEY_ECDH1))) { fprintf(stderr, "pgp: cannot parse encryption keys\n"); exit(2); }
-	}
 	W.set_clock(0, TK + 86400);
 	// the message: literal data, MDC, SEIPD under a fresh session key
 	tmcg_openpgp_octets_t data; make_doc(W, 2 + (int)(p.get("doc", 0) % 2), data);
@@ -816,6 +846,74 @@ static void pkenc_case(World &W)
 	else if (same_key && fault != 3) W.violate("C20", "pk_tampered_session_key_recovered", "the session key was recovered although " + what + "; " + id);
 }
 
+// ---- a private key block stored under a passphrase (disk artefact): export, damage, import, use
+static void prvkey_case(World &W)
+{
+	const Plan &p = W.plan;
+	const Key &K = g_keys[2]; // DSA: the packet encoder for secret keys takes (p, q, g, y, x)
+	int fault = (int)(p.get("fault", 0) % 5); // 0 none, 1 wrong passphrase, 2 bit flipped in the secret-key packet, 3 packet body truncated (re-encoded), 4 stored file cut
+	int64_t fa = p.get("fa", 0), fb = p.get("fb", 0);
+	time_t Ts = TK + 86400;
+	W.set_clock(0, Ts);
+	std::string pw = "correct horse " + std::to_string((long)(p.get("fc", 0) % 1000));
+	tmcg_openpgp_secure_string_t pass, pass2;
+	for (size_t i = 0; i < pw.size(); i++) pass += pw[i];
+	pass2 = pass;
+	gcry_mpi_t dp = NULL, dq = NULL, dg = NULL, dy = NULL, dx = NULL;
+	if (gcry_sexp_extract_param(K.sexp, NULL, "pqgyx", &dp, &dq, &dg, &dy, &dx, NULL)) { W.res.cnt["probe.key_extract_failed"]++; return; }
+	tmcg_openpgp_octets_t sec, uid, trailer, hash, left, sigpkt, flags, empty, all;
+	PGP::PacketSecEncode(TK, TMCG_OPENPGP_PKALGO_DSA, dp, dq, dg, dy, dx, pass, sec);
+	gcry_mpi_release(dp); gcry_mpi_release(dq); gcry_mpi_release(dg); gcry_mpi_release(dy); gcry_mpi_release(dx);
+	std::string uidstr = "Stored <stored@example.org>";
+	PGP::PacketUidEncode(uidstr, uid);
+	flags.push_back(0x01 | 0x02);
+	PGP::PacketSigPrepareSelfSignature(TMCG_OPENPGP_SIGNATURE_POSITIVE_CERTIFICATION, K.algo, TMCG_OPENPGP_HASHALGO_SHA256, Ts, 0, flags, K.keyid, false, trailer);
+	PGP::CertificationHash(K.pub_hashing, uidstr, empty, trailer, TMCG_OPENPGP_HASHALGO_SHA256, hash, left);
+	if (sign_any(K, hash, TMCG_OPENPGP_HASHALGO_SHA256, trailer, left, sigpkt)) { W.res.cnt["probe.sign_failed"]++; return; }
+	all = sec; all.insert(all.end(), uid.begin(), uid.end()); all.insert(all.end(), sigpkt.begin(), sigpkt.end());
+	// ---- the stored block is damaged (or the operator mistypes the passphrase)
+	bool must_fail = false, record_only = false; std::string what = "none";
+	tmcg_openpgp_octets_t wire = all;
+	tmcg_openpgp_octets_t body; tmcg_openpgp_byte_t tag = PGP::PacketBodyExtract(sec, 0, body);
+	if (tag != 5 || body.size() < 40) { W.violate("C20", "own_seckey_unreadable", "emitted secret-key packet cannot be re-read"); return; }
+	if (fault == 1) { pass2 += 'x'; must_fail = true; what = "wrong passphrase"; W.res.cnt["fault.wrong_passphrase"]++; }
+	else if (fault == 2 || fault == 3)
+	{
+		if (fault == 2) { size_t off = (size_t)fa % body.size(); body[off] ^= (tmcg_openpgp_byte_t)(1 << (fb % 8)); what = "bit flipped in the secret-key packet at " + std::to_string(off) + " of " + std::to_string(body.size()); W.res.cnt["fault.art_flip_any"]++; }
+		else { body.resize((size_t)fa % body.size()); what = "secret-key packet truncated to " + std::to_string(body.size()); W.res.cnt["fault.art_trunc_reencoded"]++; }
+		tmcg_openpgp_octets_t sec2; repacket(5, body, sec2);
+		wire = sec2; wire.insert(wire.end(), uid.begin(), uid.end()); wire.insert(wire.end(), sigpkt.begin(), sigpkt.end());
+		must_fail = true;
+	}
+	else if (fault == 4)
+	{
+		// a cut behind the complete secret-key packet leaves the secret material intact: only a cut inside it must fail
+		wire.resize((size_t)fa % wire.size()); must_fail = wire.size() < sec.size(); record_only = !must_fail;
+		what = "stored block cut to " + std::to_string(wire.size()) + " octets"; W.res.cnt["fault.art_trunc"]++;
+	}
+	// ---- restart: import and use the key
+	W.set_clock(1, Ts + 10);
+	TMCG_OpenPGP_Prvkey *prv = NULL;
+	bool parsed = PGP::PrivateKeyBlockParse(wire, 0, pass2, prv);
+	bool usable = false;
+	if (parsed && prv)
+	{
+		// the restored key signs; the signature must verify under the public key
+		tmcg_openpgp_octets_t doc, tr2, h2, l2; make_doc(W, 2, doc);
+		PGP::PacketSigPrepareDetachedSignature(TMCG_OPENPGP_SIGNATURE_BINARY_DOCUMENT, K.algo, TMCG_OPENPGP_HASHALGO_SHA256, Ts, 0, "", K.keyid, tr2);
+		PGP::BinaryDocumentHash(doc, tr2, TMCG_OPENPGP_HASHALGO_SHA256, h2, l2);
+		gcry_mpi_t r = gcry_mpi_new(2048), s2 = gcry_mpi_new(2048);
+		if (!PGP::AsymmetricSignDSA(h2, prv->private_key, r, s2) && !PGP::AsymmetricVerifyDSA(h2, K.sexp, r, s2)) usable = true;
+		gcry_mpi_release(r); gcry_mpi_release(s2);
+		delete prv;
+	}
+	W.S.hist.add(H_RESULT, (parsed ? 1 : 0) | (usable ? 2 : 0), (uint64_t)fault, 0);
+	if (record_only) W.res.cnt[usable ? "probe.cut_behind_secret_packet_usable" : "probe.cut_behind_secret_packet_refused"]++;
+	else if (!must_fail) { if (!usable) W.violate("C20", "stored_private_key_lost", std::string("a private key block exported under a passphrase ") + (parsed ? "imports but does not sign verifiably" : "does not import again")); }
+	else if (usable && fault != 2) W.violate("C20", "damaged_private_key_usable", "the private key was restored and signs although " + what);
+	else if (usable) W.res.cnt["probe.flip_outside_secret_material"]++; // e.g. a bit of the creation time: another key ID, same secret
+}
+
 } // namespace
 
 static bool p_is_c20(const Tier &tier) { return tier.property.empty() || tier.property == "C20"; }
@@ -831,6 +929,7 @@ static Plan pgp_generate(uint64_t seed, const Tier &tier)
 	else if (!c12 && g.chance(1, 6)) kind = 4;
 	else if (!c12 && g.chance(1, 30)) kind = 5;
 	else if (g.chance(1, 8)) kind = 6;
+	else if (g.chance(1, 12)) kind = 7;
 	p.cfg["kind"] = kind;
 	p.cfg["doc"] = (int64_t)g.below(6);
 	p.cfg["fa"] = (int64_t)g.below(1 << 20); p.cfg["fb"] = (int64_t)g.below(8);
@@ -848,6 +947,11 @@ static Plan pgp_generate(uint64_t seed, const Tier &tier)
 		p.cfg["jump"] = g.chance(1, 8) ? (g.chance(1, 2) ? 86400 * 800 : -86400 * 800) : 0;
 		unsigned f = (unsigned)g.below(16);
 		p.cfg["fault"] = !faults ? 0 : (c12 ? (int64_t)(6 + g.below(3)) : (f < 5 ? 0 : (int64_t)(1 + (f - 5) % 9)));
+	}
+	else if (kind == 7)
+	{
+		p.cfg["fb"] = (int64_t)g.below(8); p.cfg["fc"] = (int64_t)g.below(1000);
+		p.cfg["fault"] = !faults ? 0 : (c12 ? (int64_t)g.range(2, 4) : (g.chance(1, 3) ? 0 : (int64_t)g.range(1, 4)));
 	}
 	else if (kind == 6)
 	{
@@ -867,12 +971,13 @@ static Plan pgp_generate(uint64_t seed, const Tier &tier)
 	{
 		p.cfg["key"] = (int64_t)g.below(4); p.cfg["art"] = (int64_t)g.below(3); p.cfg["fc"] = (int64_t)g.below(256); p.cfg["fb"] = (int64_t)g.below(1 << 20);
 		p.cfg["armor"] = g.chance(1, 2) ? 0 : (!faults ? 1 : (int64_t)g.range(1, 7));
+		p.cfg["subkey"] = g.chance(1, 2); p.cfg["edits"] = (faults && g.chance(1, 3)) ? (int64_t)g.range(1, 4) : 0;
 		p.cfg["fault"] = !faults ? 0 : (int64_t)g.below(7);
 	}
 	else if (kind == 1) { unsigned f = (unsigned)g.below(12); p.cfg["fault"] = !faults ? 0 : (c12 ? (g.chance(1, 2) ? 2 : 6) : (f < 4 ? 0 : (int64_t)(1 + (f - 4) % 6))); }
 	else
 	{
-		p.cfg["aead"] = (int64_t)g.below(2); p.cfg["chunk"] = (int64_t)g.below(3); p.cfg["nchunks"] = (int64_t)g.below(4);
+		p.cfg["aead"] = (int64_t)g.below(2); p.cfg["chunk"] = (int64_t)g.below(3); { static const int big[] = { 254, 255, 256, 257, 258, 300 }; p.cfg["nchunks"] = g.chance(1, 10) ? (int64_t)big[g.below(6)] : (int64_t)g.below(4); }
 		unsigned f = (unsigned)g.below(14); p.cfg["fault"] = !faults ? 0 : (f < 4 ? 0 : (int64_t)(1 + (f - 4) % 7));
 	}
 	return p;
@@ -912,9 +1017,9 @@ static void pgp_enumerate(const Tier &tier, std::vector<Plan> &out)
 static RunResult pgp_execute(const Plan &plan)
 {
 	World W(plan);
-	int kind = (int)(plan.get("kind", 0) % 7);
-	if (kind == 0) signature_case(W); else if (kind == 1) message_case(W); else if (kind == 2) aead_case(W); else if (kind == 3) artefact_case(W); else if (kind == 4) file_case(W); else if (kind == 5) gnupg_case(W); else pkenc_case(W);
-	W.res.cnt[kind == 0 ? "probe.signature_cases" : (kind == 1 ? "probe.seipd_cases" : (kind == 2 ? "probe.aead_cases" : (kind == 3 ? "probe.artefact_cases" : (kind == 4 ? "probe.file_cases" : (kind == 5 ? "probe.gnupg_cases" : "probe.pkenc_cases")))))]++;
+	int kind = (int)(plan.get("kind", 0) % 8);
+	if (kind == 0) signature_case(W); else if (kind == 1) message_case(W); else if (kind == 2) aead_case(W); else if (kind == 3) artefact_case(W); else if (kind == 4) file_case(W); else if (kind == 5) gnupg_case(W); else if (kind == 6) pkenc_case(W); else prvkey_case(W);
+	W.res.cnt[kind == 0 ? "probe.signature_cases" : (kind == 1 ? "probe.seipd_cases" : (kind == 2 ? "probe.aead_cases" : (kind == 3 ? "probe.artefact_cases" : (kind == 4 ? "probe.file_cases" : (kind == 5 ? "probe.gnupg_cases" : (kind == 6 ? "probe.pkenc_cases" : "probe.prvkey_cases"))))))]++;
 	W.res.fingerprint = W.S.hist.h ^ derive(plan.seed, 3); W.res.steps = 1; W.res.sim_ms = 0;
 	W.res.nontrivial = plan.get("fault", 0) != 0 || plan.get("now_off", 10) != 10 || plan.get("jump", 0) != 0;
 	return W.res;
